@@ -43,6 +43,7 @@ func genC13(t *core.Tape, tier string) *Scenario {
 		sc.PoolDrop = uint32(1 + t.Choose(1<<20, "pooldrop.seed"))
 	}
 	sc.AlgoYield = t.Bool(1, 2, "algo.yield")
+	sc.TouchErrors = t.Bool(1, 2, "touch.errors")
 	h := genHandlerCfg(t)
 	// a read limit far above every payload bounds the damage of a misframed
 	// stream (a garbage length prefix would otherwise reserve gigabytes)
@@ -178,6 +179,9 @@ func checkC13(w *World, st core.Status, r *RunResult) []Violation {
 			if q != "" {
 				add("cross-talk/request-url", fmt.Sprintf("the request handed to HTTPClient.Do already carried %q, the edit made to another call's request URL", q))
 			}
+		}
+		if o.ForeignTouch != "" {
+			add("cross-talk/error-object", fmt.Sprintf("the error handed to this call is the very object handed to call %s (it carries that call's annotation)", o.ForeignTouch))
 		}
 		// nothing of another call shows up in this one
 		for i, m := range o.Recv {
